@@ -74,6 +74,14 @@ def run(rep, tier, replay):
     # ---- tables of real outputs
     fam = inputs.families(rng, tier)
     fam += [("fib_freq_%d" % n, fib_input(n)) for n in (24, 30, 40)] + [("small_alpha", bytes(rng.choice(b"abc") for _ in range(5000)))]
+    # short blocks in which one 50-symbol stretch is unlike the rest (a table that serves a single group), and short
+    # high-entropy inputs (tables whose description costs about as much as they save)
+    for k, n in enumerate((400, 1500, 4000, 9000)):
+        base = bytearray(rng.choice(b"ab \n") for _ in range(n))
+        at = n // 3
+        base[at:at + 60] = bytes(rng.sample(range(32, 256), 60))
+        fam.append(("burst_%d" % n, bytes(base)))
+        fam.append(("rand_%d" % (n // 2), rng.randbytes(n // 2)))
     cases = []
     for name, data in fam:
         if not data:
